@@ -1,6 +1,6 @@
 """harness: fact extraction (cached by a hash of /repo's working tree), known
 findings, evidence files and the check entry point."""
-import fcntl, hashlib, importlib, json, os, shutil, subprocess, sys, time
+import fcntl, hashlib, importlib, json, os, re, shutil, subprocess, sys, time
 
 VERIF = os.path.dirname(os.path.dirname(os.path.abspath(__file__)))
 REPO = os.environ.get('VERIF_REPO', '/repo')
@@ -120,6 +120,59 @@ def ensure_facts(config='default', repo=REPO, log=None):
     return fdir
 
 
+CLIPPY_LINTS = ['indexing_slicing', 'arithmetic_side_effects', 'unwrap_used', 'expect_used', 'panic', 'unimplemented',
+                'unreachable', 'string_slice', 'iter_over_hash_type', 'await_holding_lock', 'todo']
+
+
+def clippy_hits(repo=None):
+    """opt-in clippy restriction lints over the workspace: an independent enumerator used to cross-check the
+    completeness of the inventories (thorough tier).  Returns list of (file, line, lint)."""
+    repo = repo or REPO
+    key = tree_key(repo)
+    out_p = os.path.join(CACHE, 'facts', key, 'clippy.json')
+    if os.path.exists(out_p):
+        with open(out_p) as fh:
+            return [tuple(x) for x in json.load(fh)]
+    tdir = os.path.join(CACHE, 'target', 'clippy')
+    os.makedirs(tdir, exist_ok=True)
+    fp = os.path.join(tdir, 'debug', '.fingerprint')
+    if os.path.isdir(fp):
+        for d in os.listdir(fp):
+            if any(d.startswith(m + '-') for m in MEMBERS):
+                shutil.rmtree(os.path.join(fp, d), ignore_errors=True)
+    env = dict(os.environ)
+    env['CARGO_TARGET_DIR'] = tdir
+    env['CARGO_NET_OFFLINE'] = 'true'
+    env.pop('RUSTC_WORKSPACE_WRAPPER', None)
+    cmd = ['cargo', '+nightly', 'clippy', '--offline', '--workspace', '--message-format=json', '--'] + ['-Wclippy::' + l for l in CLIPPY_LINTS]
+    p = subprocess.run(cmd, cwd=repo, env=env, stdout=subprocess.PIPE, stderr=subprocess.PIPE, text=True)
+    hits = []
+    for line in p.stdout.splitlines():
+        if not line.startswith('{'):
+            continue
+        try:
+            m = json.loads(line)
+        except ValueError:
+            continue
+        if m.get('reason') != 'compiler-message':
+            continue
+        msg = m['message']
+        code = (msg.get('code') or {}).get('code') or ''
+        if not code.startswith('clippy::'):
+            continue
+        for sp in msg.get('spans', []):
+            if sp.get('is_primary'):
+                # the user-visible location: outermost expansion call site
+                s2 = sp
+                while s2.get('expansion') and s2['expansion'].get('span'):
+                    s2 = s2['expansion']['span']
+                hits.append((s2['file_name'], s2['line_start'], code[len('clippy::'):]))
+    os.makedirs(os.path.dirname(out_p), exist_ok=True)
+    with open(out_p, 'w') as fh:
+        json.dump(hits, fh)
+    return hits
+
+
 def ensure_ast(repo=REPO):
     """source-level facts (E2) for every non-test .rs file of the workspace members"""
     if not os.path.exists(ASTQ):
@@ -189,8 +242,58 @@ class Result:
                 self.error(rid, 'rule %s matched %d instances, below the floor %d confirmed by hand: the anchor moved or the rule went vacuous' % (rid, r['instances'], r['floor']))
 
 
+EVIDENCE_DIR = os.environ.get('VERIF_EVIDENCE_DIR', os.path.join(VERIF, 'evidence'))
+
+
+def seeded_replay(pid):
+    """thorough tier: apply every seeded breaking change recorded for this property to a scratch copy of
+    /repo, re-extract facts there and re-run this property's quick check; report which ones the check caught.
+    Never changes the verdict on /repo itself."""
+    import tempfile
+    out = []
+    sdir = os.path.join(VERIF, 'seeded')
+    if not os.path.isdir(sdir):
+        return out
+    for name in sorted(os.listdir(sdir)):
+        meta_p = os.path.join(sdir, name, 'meta.json')
+        patch = os.path.join(sdir, name, 'patch.diff')
+        if not (os.path.exists(meta_p) and os.path.exists(patch)):
+            continue
+        with open(meta_p) as fh:
+            meta = json.load(fh)
+        if pid not in meta.get('caught_by', []) and meta.get('property') != pid:
+            continue
+        tmp = tempfile.mkdtemp(prefix='verif_seed_')
+        try:
+            dst = os.path.join(tmp, 'repo')
+            subprocess.run(['rsync', '-a', '--exclude', 'target', '--exclude', '.git', REPO + '/', dst + '/'], check=True)
+            ap = subprocess.run(['git', 'apply', '--unsafe-paths', '--directory', dst, patch], cwd=tmp, stdout=subprocess.PIPE, stderr=subprocess.STDOUT, text=True)
+            if ap.returncode != 0:
+                ap = subprocess.run(['patch', '-p1', '-s', '-d', dst, '-i', patch], stdout=subprocess.PIPE, stderr=subprocess.STDOUT, text=True)
+            if ap.returncode != 0:
+                out.append({'seed': name, 'status': 'patch does not apply to the current tree (skipped)'})
+                continue
+            env = dict(os.environ)
+            env['VERIF_REPO'] = dst
+            env['VERIF_EVIDENCE_DIR'] = os.path.join(tmp, 'evidence')
+            env['VERIF_TIER'] = 'quick'
+            r = subprocess.run([sys.executable, os.path.join(VERIF, 'py', 'harness.py'), pid, '--tier', 'quick'], env=env, stdout=subprocess.PIPE, stderr=subprocess.STDOUT, text=True)
+            fired = 'VIOLATION property=%s' % pid in r.stdout
+            rules = sorted(set(re.findall(r'^  (C\d+[\w.]*) ', r.stdout, re.M)))
+            out.append({'seed': name, 'status': 'caught' if fired else ('check failed to run' if r.returncode not in (0, 1) else 'MISSED'), 'rules': rules[:8]})
+        finally:
+            shutil.rmtree(tmp, ignore_errors=True)
+            # the scratch tree's facts are of no further use
+            _prune_cache(tree_key(REPO))
+    return out
+
+
 def finish(res, tier, t0, level='other', explanation='', trusted=None, distinct=None, seed=0, proof=False):
     """apply known findings, write evidence, print verdict lines, return exit code"""
+    try:
+        seed = int(os.environ.get('VERIF_SEED', seed) or 0)
+    except ValueError:
+        seed = 0
     res.check_floors()
     known = [k for k in load_known() if k['property'] == res.pid and k.get('status') == 'known']
     known_keys = {k['key']: k for k in known}
@@ -220,6 +323,10 @@ def finish(res, tier, t0, level='other', explanation='', trusted=None, distinct=
         'exhaustive': True,
     }
     cov.update(res.extra)
+    if tier == 'thorough' and not os.environ.get('VERIF_EVIDENCE_DIR'):
+        st = seeded_replay(res.pid)
+        cov['selftest_seeded_changes'] = st
+        cov['selftest_summary'] = 'caught %d of %d seeded changes' % (sum(1 for x in st if x['status'] == 'caught'), sum(1 for x in st if x['status'] in ('caught', 'MISSED')))
     if proof or level == 'proof':
         cov['checker_cmd'] = './check %s' % res.pid
         cov['trusted_base'] = trusted or []
@@ -229,14 +336,14 @@ def finish(res, tier, t0, level='other', explanation='', trusted=None, distinct=
         'property_id': res.pid, 'tier': tier, 'seed': seed, 'level': level, 'coverage': cov,
         'assumptions': res.assumptions, 'wall_s': round(time.time() - t0, 2), 'violations': len(real),
     }
-    os.makedirs(os.path.join(VERIF, 'evidence'), exist_ok=True)
-    with open(os.path.join(VERIF, 'evidence', res.pid + '.json'), 'w') as fh:
+    os.makedirs(EVIDENCE_DIR, exist_ok=True)
+    with open(os.path.join(EVIDENCE_DIR, res.pid + '.json'), 'w') as fh:
         json.dump(ev, fh, indent=1, sort_keys=True)
         fh.write('\n')
     for v, k in knownhit:
         print('KNOWN-FINDING: property=%s %s [%s]' % (res.pid, k['what'], v['key']))
     if real:
-        vp = os.path.join(VERIF, 'evidence', res.pid + '.violations.json')
+        vp = os.path.join(EVIDENCE_DIR, res.pid + '.violations.json')
         with open(vp, 'w') as fh:
             json.dump(real, fh, indent=1)
         for v in real:
